@@ -50,6 +50,12 @@ def cases(tier, seed):
         for r in range(rep):
             out.append({"kind": "deficient", "cls": "deficient:" + cls, "c": cls, "idx": idx, "seed": seed, "maxd": maxd})
             idx += 1
+    # an exactly zero column stored as -0.0 at an INTERIOR position (columns before it with mixed signs, columns after it so that its row of R
+    # has entries): the sign normalisation meets pivots that are exactly zero with either sign bit; only 10-30 % of such inputs leave mixed
+    # sign bits behind, hence many cheap cases
+    for r in range(400 if tier == "quick" else 3000):
+        out.append({"kind": "deficient", "cls": "deficient:zero_column_negzero_interior", "c": "zero_column_negzero_interior", "idx": idx, "seed": seed, "maxd": maxd})
+        idx += 1
     for r in range(4000 if tier == "quick" else 30000):
         out.append({"kind": "deplast", "cls": "dependent_last_column", "idx": idx, "seed": seed})
         idx += 1
@@ -294,6 +300,18 @@ def _deficient(spec, ctx, R):
                 generic = False
             A[:, j] = np.quaternion(0, 0, 0, 0)
             A = -A
+        elif c == "zero_column_negzero_interior":
+            n = int(rng.integers(3, 6)); m = int(rng.integers(2, 7))
+            generic = rng.random() >= 0.25
+            A = refq.randq(rng, m, n) if generic else gen.entries(rng, "int", m, n)      # integer data may be rank-deficient beyond the zero column: ordinary tags
+            j = int(rng.integers(1, n - 1))
+            if spec["idx"] % 2:
+                A[:, j] = np.quaternion(0, 0, 0, 0)
+                A = -A if spec["idx"] % 4 == 1 else A * (-2.0)
+            else:
+                cf = refq.fa(A)
+                cf[:, j, :] *= 0.0
+                A = refq.qa(cf)
         elif c == "zero_column_masked":
             cf = refq.fa(A)
             cf[:, j, :] *= 0.0                     # negative entries become -0.0, positive ones +0.0
@@ -308,8 +326,8 @@ def _deficient(spec, ctx, R):
             A[int(rng.integers(0, m)), :] = np.quaternion(0, 0, 0, 0)
         elif c == "leading_deficient" and m >= 2 and n > m:
             A[:, 1] = A[:, 0] * refq.randq(rng, 1, 1)[0, 0]      # wide, full row rank, but a rank-deficient leading block
-    extra = [c] + (["zero_column"] if c in ("zero_column", "zero_matrix", "zero_column_negzero", "zero_column_masked") else [])
-    if c in ("zero_column", "zero_column_negzero", "zero_column_masked") and generic:
+    extra = [c] + (["zero_column"] if c in ("zero_column", "zero_matrix", "zero_column_negzero", "zero_column_masked", "zero_column_negzero_interior") else [])
+    if c in ("zero_column", "zero_column_negzero", "zero_column_masked", "zero_column_negzero_interior") and generic:
         extra.append("zero_columns_generic")
     tags = _tags(ctx, A, extra)
     ctx.distinct(A, nontrivial=m * n >= 2 and refq.fro(A) > 0)
